@@ -138,8 +138,24 @@ class HypothesisDraw(_DrawBase):
         from hypothesis import strategies as st
         self._st = st
 
+    _strategies = {}
+
     def _int(self, lo, hi):
-        return self._data.draw(self._st.integers(lo, hi))
+        # st.integers() favours the bounds and zero (measured: the minimum of a
+        # 6-value range is drawn in 37 % of the cases, of a 75-value range in
+        # 19 %), which starves every option that is not listed first.  Small
+        # ranges are therefore drawn with sampled_from (uniform); the recorded
+        # choice is the value itself either way.
+        key = (lo, hi)
+        strat = self._strategies.get(key)
+        if strat is None:
+            if hi - lo <= 255:
+                strat = self._st.sampled_from(range(lo, hi + 1))
+            else:
+                strat = self._st.integers(lo, hi)
+            if len(self._strategies) < 4096:
+                self._strategies[key] = strat
+        return self._data.draw(strat)
 
     def _float(self, lo, hi):
         return self._data.draw(self._st.floats(
